@@ -64,7 +64,8 @@ ASSUMPTIONS = ["BNode() ids (uuid4) differ from each other and from every id alr
                "parse calls of a history",
                "caller-requested sharing / naming (bnode_context=, one N-Quads parser object used again, preserve_bnode_ids=True, "
                "skolemize=True) replaces the merge by exactly what was asked for (Lean: caller_shared_context_shares_exactly, "
-               "preserve_bnode_ids_is_verbatim, skolemize_no_blank_nodes); a bnode_context dict starts empty",
+               "preserve_bnode_ids_is_verbatim, skolemize_no_blank_nodes); a bnode_context dict starts empty or with entries "
+               "label -> distinct nodes of the target / of the caller (the theorem's hypothesis MapInv)",
                "N3 gives every formula occurrence { } its own label scope (what the code does, and N3's reading of _:x as an "
                "existential of the formula): the oracle makes one node per (document, formula occurrence, label); "
                "no variables / @forAll"]
@@ -429,6 +430,17 @@ def gen_case(rng, tier, i):
         docs.append(d)
         if marks:
             earlier.append((idx, marks))
+    # (round h) a caller's dict that already has entries when it is handed over: label -> a node of the target (or a node
+    # the caller made); distinct nodes for distinct labels
+    ctxinit = {}
+    used_ctx = sorted({d["opts"]["ctx"] for d in docs if "ctx" in (d.get("opts") or {})})
+    for kctx in used_ctx:
+        # (not next to hextuples documents: their verbatim labels — known finding K1 — would meet the caller's node ids and
+        # K1 would surface on a document that is not a hext document)
+        if rng.random() < 0.5 and not any(d["fmt"] == "hext" for d in docs):
+            labs = rng.sample(pool, min(len(pool), rng.randint(1, 2)))
+            nodes = rng.sample([x for x in range(12)], len(labs))
+            ctxinit[str(kctx)] = [[k, "b%d" % n] for k, n in zip(labs, nodes) if k != EMPTY]
     if any(d["fmt"] == "hext" for d in docs):
         # hextuples keeps labels verbatim (known finding K1); next to a preserve_bnode_ids=True document the two would
         # share nodes by id, and K1 would surface on a document that is not a hext document: not combined
@@ -439,7 +451,7 @@ def gen_case(rng, tier, i):
     # pytest-randomly, fork()ed workers): BNode() ids must not depend on it
     reseed = rng.choice(["seed0", "restore", "seedidx"]) if rng.random() < share / 2 else None
     return {"sink": sink, "init": init, "docs": docs, "fresh": fresh, "predict": rng.random() < 0.5, "union": union,
-            "reuse": reuse, "reseed": reseed}
+            "reuse": reuse, "reseed": reseed, "ctxinit": ctxinit}
 
 
 # ---------------------------------------------------------------- running the implementation
@@ -853,8 +865,18 @@ def _run_impl(case):
     obs, viol = [], []
     stats = {"docs": len(case["docs"]), "sink_" + kind: 1}
     plugins = {}                 # parser plugin objects shared by the documents of this case (style "plugin")
+    used = {}                     # label string -> set of parse calls using it
     ctxs = {}                    # the caller's bnode_context dicts of this case, by number (opts "ctx")
     shared_nodes = {}            # oracle: (dict or parser object, label) -> the one node the caller asked for
+    ctx_given = {}               # entries the caller put into its dicts beforehand: (k, label) -> node
+    for kctx, entries in (case.get("ctxinit") or {}).items():
+        for lab_k, node in entries:
+            b = bn_init(node)
+            ctxs.setdefault(int(kctx), {}).setdefault(LAB[lab_k], b)
+            ctx_given[(int(kctx), LAB[lab_k])] = ctxs[int(kctx)][LAB[lab_k]]
+            shared_nodes[(("ctx", int(kctx)), LAB[lab_k])] = BNode(str(ctxs[int(kctx)][LAB[lab_k]]))
+            used.setdefault(str(b), set()).add(-1)
+            stats["ctx_prepopulated_entries"] = stats.get("ctx_prepopulated_entries", 0) + 1
     stats["axis.target." + kind + ("_default_union" if case.get("union") else "")] = 1
     pi = _predict_target(case)
     if pi is not None:
@@ -866,7 +888,6 @@ def _run_impl(case):
             merge.add(q)
             if not bid.startswith("pred"):
                 stats["predicted_ids"] = stats.get("predicted_ids", 0) + 1
-    used = {}                     # label string -> set of parse calls using it
     for k in init_bn.values():
         used.setdefault(str(k), set()).add(-1)
 
@@ -967,6 +988,11 @@ def _run_impl(case):
             small = sorted(LAB.index(k) for k in keys if k in LAB)
             other = len(keys) - len(small)
             line += " ctx=" + (",".join(map(str, small)) or "-") + (" +%d" % other if other else "")
+            for (kc, lab_), node in ctx_given.items():
+                if kc == opts["ctx"] and ctxs[kc].get(lab_) != node:
+                    viol.append(f"ctx-value: the entry the caller put into bnode_context for {lab_!r} was replaced by document {idx}")
+                if kc == opts["ctx"] and lab_ in labels.values():
+                    stats["ctx_prepopulated_label_used"] = stats.get("ctx_prepopulated_label_used", 0) + 1
             bad = [k for k, v in ctxs.get(opts["ctx"], {}).items() if not isinstance(v, BNode)]
             if bad:
                 viol.append(f"ctx-value: bnode_context[{bad[0]!r}] is not a BNode after document {idx}")
@@ -1172,6 +1198,7 @@ def model_lines(case):
     if pi is not None:
         for j in range(len(_anon_terms(case["docs"][pi]))):
             lines.append("init b%d i%d i1 i0" % (900 + j, PRED_I[2]))
+    lines += _ctxset_lines(case)
     for idx, doc in enumerate(case["docs"]):
         into = _eff_into(case, doc) or "i0"
         # the parser by name: the model runs that parser's own node function (lean/RV/C12/Parsers.lean) with the options
@@ -1190,6 +1217,11 @@ def model_lines(case):
         if "ctx" in o:
             lines.append("ctx %d" % o["ctx"])
     return lines
+
+
+def _ctxset_lines(case):
+    return ["ctxset %s n%d %s" % (k, lab_k, node) for k, entries in sorted((case.get("ctxinit") or {}).items())
+            for lab_k, node in entries]
 
 
 def _stmt_lines(case, idx, doc):
@@ -1217,7 +1249,7 @@ def _stmt_lines(case, idx, doc):
 
 def select_model_obs(case, out):
     pi = _predict_target(case)
-    res, k = [], 1 + len(case["init"]) + (len(_anon_terms(case["docs"][pi])) if pi is not None else 0)
+    res, k = [], 1 + len(case["init"]) + (len(_anon_terms(case["docs"][pi])) if pi is not None else 0) + len(_ctxset_lines(case))
     for idx, doc in enumerate(case["docs"]):
         k += 1 + len(_stmt_lines(case, idx, doc)) + 1
         line = out[k]
@@ -1272,6 +1304,9 @@ def shrink(case):
         yield {**case, "reuse": False}
     if case.get("reseed"):
         yield {**case, "reseed": None}
+    for kc, entries in (case.get("ctxinit") or {}).items():
+        for j in range(len(entries)):
+            yield {**case, "ctxinit": {**case["ctxinit"], kc: entries[:j] + entries[j + 1:]}}
     if case.get("union"):
         yield {**case, "union": False}
     for i in range(len(docs)):
